@@ -124,7 +124,10 @@ def load (res : String → Option IP) (c : Cfg) : Option Loaded :=
 def dump (l : Loaded) : Option Cfg :=
   if marshal = [.ifAddrSet, .printVerbatim, .marshalConfig] then some ⟨l.network, printAddr l.addr⟩ else none
 
-/-- where a listener listens: the address family semantics -/
+/-- where a listener listens: the family semantics of the address AS WRITTEN (what everything that reads the address sees: the
+matching of inherited listeners by `ip.Equal`, xDS / admin display, a `tcp4`-style bind, other consumers of the dump). Go's own
+`net.ListenTCP("tcp", 0.0.0.0:p)` opens a dual-stack socket on Linux, so the socket probe of the harness reports the same
+reachability for `0.0.0.0` and `[::]`; the distinction is kept here because the configuration is not only read by that call. -/
 inductive Fam where
   /-- every address, IPv4 and IPv6 (bare `:port` and `[::]:port`) -/
   | wildDual
